@@ -2,7 +2,7 @@
    `brute total attrs` of the single explicit joint of its stored parameters; the statements below are about those marginals. *)
 From Coq Require Import List Arith Bool.
 Import ListNotations.
-Require Import PGM.Base.Alg PGM.Base.Sums PGM.Base.Qnn PGM.Model.BP PGM.Model.Query PGM.Proofs.QueryP.
+Require Import PGM.Base.Alg PGM.Base.Sums PGM.Base.Qnn PGM.Model.BP PGM.Model.Query PGM.Proofs.QueryP PGM.Proofs.JTP PGM.Proofs.MleP.
 
 (* any two answers agree on the attributes they share *)
 Theorem C08_answers_agree_on_shared_attributes (R : SF) shape D ncl psi total A1 A2 S x :
@@ -27,6 +27,21 @@ Print Assumptions C08_marginalisation_linear.
 Theorem C08_nonnegative (q : Qnn) : nn (qv q) = true. Proof. exact (qnn q). Qed.
 Print Assumptions C08_nonnegative.
 
-(* PARTIAL: stored marginals = marginals implied by stored parameters.  For MD the pair (theta, BP theta) is C01_exact;
-   for RDA / IG it needs mle_reproduces (BP (mle mu) = mu on a junction tree for consistent positive mu), which is NOT proved
-   and is observed per run against the exact joint of the stored parameters. *)
+(* STORED PARAMETERS REPRODUCE STORED MARGINALS (RDA / IG set the parameters with mle): for clique tables mu that are consistent along
+   the edges of the junction tree, the potentials mle builds - mu_c divided (x/0 := x) by mu_c summed onto the separator with the clique
+   visited before it - have, for EVERY rooting of the tree satisfying the running-intersection predicate, the root marginal mu_root;
+   over any zero-sum-free semifield, zeros included.  `par` is the visiting order of mle, `oriented` says the rooted tree and par
+   describe the same tree. *)
+Theorem C08_mle_reproduces (F : SF) shape scope (mu : nat -> tbl F) par :
+  (forall c a, ~ In a (scope c) -> @indep F a (mu c)) ->
+  (forall c p, par c = Some p -> forall x, @valid shape x ->
+     @sum_vars F shape (diff (scope c) (scope p)) (mu c) x = @sum_vars F shape (diff (scope p) (scope c)) (mu p) x) ->
+  forall d ks, good scope (Node d ks) -> oriented par None (Node d ks) -> forall x, @valid shape x ->
+  @sum_vars F shape (flat_map (elimt scope (scope d)) ks) (jointt F (psi F shape scope mu par) (Node d ks)) x = mu d x.
+Proof. intros Hd Hc. exact (mle_reproduces F shape scope mu par Hd Hc). Qed.
+Print Assumptions C08_mle_reproduces.
+
+(* PARTIAL: for MD the pair (theta, BP theta) is C01_exact.  For RDA / IG the averaged marginals are locally consistent because each
+   summand is a BP output (C01) and consistency is linear (C08_marginalisation_linear); that mle's running set `variables & cl` equals
+   the separator with the tree parent (running intersection + DFS order) is compared per run, as are the stored marginals against
+   the exact joint of the stored parameters. *)
